@@ -7,8 +7,20 @@ import sys
 
 HERE = os.path.dirname(os.path.dirname(os.path.abspath(__file__)))
 
+SIM_NOTE = ("Pools, queue arrival order, asyncio thread, clock and uuids are simulated; SQLite, "
+            "SQLAlchemy, pickle, CPython and the simulator kit are trusted. Sampling, not proof.")
+
 # id -> (engine, level, technique, level_text, level_note, design_ref)
 CLAIMED = {
+    "C01": (
+        "schedsim", "exploration",
+        "deterministic simulation: seeded schedules of generated programs on the real scheduler, "
+        "refinement against an executable reference interpreter (outcome sets)",
+        "Generated workflow programs (all listed control forms, containers, operators, partial "
+        "tasks, defaults, thread/process/async modes) run on the real Scheduler under seeded "
+        "completion orders; the outcome must be a member of the outcome set computed by a small "
+        "reference interpreter transcribed from the documented reduction rules.",
+        SIM_NOTE + " The reference interpreter is part of the trusted base.", "DESIGN.md §4 C01"),
     "C06": (
         "schedsim", "exploration",
         "deterministic simulation: seeded completion-order search on the real scheduler, "
@@ -16,11 +28,34 @@ CLAIMED = {
         "Seeded search over completion orders of generated duplicate-heavy programs on the real "
         "Scheduler/LocalExecutor/RedunBackendDb; oracle over the recorded history: at most one pool "
         "hand-off per (eval hash, context) among calls that did not opt out, equal outcomes for "
-        "twins, one Job per (parent, expression hash). Sampling, not proof.",
-        "Pools, queue arrival order, asyncio thread, clock and uuids are simulated; SQLite, "
-        "SQLAlchemy, pickle, CPython and the simulator kit are trusted.",
-        "DESIGN.md §4 C06",
-    ),
+        "twins, one Job per (parent, expression hash).",
+        SIM_NOTE, "DESIGN.md §4 C06"),
+    "C08": (
+        "schedsim", "exploration",
+        "deterministic simulation: seeded schedules with shadow resource accounting (conservation "
+        "invariant checked after every scheduler event)",
+        "Generated programs with list/dict limits, failures, duplicates, cache hits and unknown "
+        "executors under seeded completion orders; shadow accounting of units from hand-off to "
+        "report, invariants held<=limit and limits_used>=0 after every event, consume/release "
+        "exactly once per job, zero at the end of executions that return.",
+        SIM_NOTE, "DESIGN.md §4 C08"),
+    "C09": (
+        "schedsim", "exploration",
+        "deterministic simulation: bounded liveness at quiescence under seeded schedules and "
+        "feasible limit configurations",
+        "Generated programs sharing scarce resources under feasible limits; a run must end within "
+        "a step cap, never reach a quiescent state with the workflow pending, and (when it "
+        "returns) leave every created job finalized as DONE/CACHED/FAILED.",
+        SIM_NOTE + " Async tasks get no limits (hold-and-wait by construction).", "DESIGN.md §4 C09"),
+    "C12": (
+        "schedsim", "exploration",
+        "deterministic simulation: seeded schedules over repeated executions on one backend, "
+        "oracles over outcome, database rows and execution counters",
+        "Programs with one failing leaf at any depth executed 2-3 times on one backend: run raises "
+        "the leaf's (type, message), the failing chain is recorded FAILED with ErrorValue call "
+        "nodes and end times, nothing is handed off after the root is rejected, and the failing "
+        "function runs again in every later execution.",
+        SIM_NOTE, "DESIGN.md §4 C12"),
 }
 
 NOT_APPLICABLE = {
